@@ -75,7 +75,8 @@ Proof.
     + destruct (run_notifiers _ _ _ _ _ _ _ _) as [[H calls] e] eqn:R. inversion S; subst. cbn [d_st with_hooks st_hooks].
       apply (run_notifiers_wf _ _ _ _ _ _ _ _ _ _ _ W R).
     + inversion S; subst. exact W.
-  - destruct (run_ta_notifiers _ _ _ _ _ _ _) as [[H calls] e] eqn:R. inversion S; subst. cbn [d_st with_hooks st_hooks].
+  - destruct (has_trait (d_heap d) x f); [inversion S; subst; exact W|].
+    destruct (run_ta_notifiers _ _ _ _ _ _ _) as [[H calls] e] eqn:R. inversion S; subst. cbn [d_st with_hooks st_hooks].
     apply (run_ta_notifiers_wf _ _ _ _ _ _ _ _ _ _ W R).
 Qed.
 
